@@ -316,14 +316,19 @@ class World(EventDispatcher):
         """Finalize deletion of any entities marked as dead."""
         # Consume marks one by one. A mark is kept while its entity is
         # being finalized (the entity does not exist for its own on_remove
-        # callbacks) and dropped whatever happens, so that an invalid one
-        # cannot make every later call fail
+        # callbacks). If finalization fails half way (an on_remove raised)
+        # the mark stays: the entity does not come back to life and the
+        # next call completes the deletion. An invalid mark (no such
+        # entity) is dropped, so that it cannot make every later call fail
         while self._dead_entities:
             entity = next(iter(self._dead_entities))
             try:
                 self._clear_dead_entity(entity)
-            finally:
-                self._dead_entities.discard(entity)
+            except BaseException:
+                if entity not in self._entities:
+                    self._dead_entities.discard(entity)
+                raise
+            self._dead_entities.discard(entity)
 
     def _clear_dead_entity(self, entity: Hashable):
         """Finalize deletion of one entity, see _clear_dead_entities."""
